@@ -198,13 +198,64 @@ def units_for(prop, units):
     return [u for u in units if prop in u['props']]
 
 
+_CALL = re.compile(r'(?P<pre>\.|::)?\b(?P<name>[a-z_][a-z0-9_]*)\s*\(')
+
+
+def dependency_closure(prop, units):
+    """Function-level call-graph closure: the functions tagged with `prop` plus every contracted function they
+    (transitively) call, by source name. Returns {unit name: set(out fn names)} for the non-assumed definitions."""
+    defs = {}     # out name -> list of (unit, meta, body)
+    for u in units:
+        tmpl = os.path.join(VERIF, 'contracts', u['template'])
+        try:
+            b = extract.build_unit(tmpl, REPO, u.get('variants', ['A'])[0])
+        except extract.ExtractError:
+            continue
+        for name, meta in b.fns.items():
+            if meta.get('assumed') or meta.get('ghost') or meta.get('first') is None:
+                continue
+            body = '\n'.join(t for t, o in zip(b.lines[meta['first'] - 1:meta['last']], b.origin[meta['first'] - 1:meta['last']]) if o['k'] == 'src')
+            defs.setdefault(meta.get('src_name') or name, []).append((u['name'], name, meta, body))
+    by_out = {}
+    for src, lst in defs.items():
+        for (un, out, meta, body) in lst:
+            by_out[(un, out)] = (src, meta, body)
+    work = [(un, out) for (un, out), (src, meta, body) in by_out.items() if prop in meta.get('props', [])]
+    seen = set(work)
+    while work:
+        un, out = work.pop()
+        src, meta, body = by_out[(un, out)]
+        # skip the signature: only calls in the body count
+        i = body.find('{')
+        for m in _CALL.finditer(body[i + 1:] if i >= 0 else body):
+            callee = m.group('name')
+            if callee not in defs:
+                continue
+            for (un2, out2, meta2, body2) in defs[callee]:
+                is_method = meta2.get('impl') is not None
+                if m.group('pre') == '.' and not is_method:
+                    continue
+                if m.group('pre') is None and is_method:
+                    continue
+                if (un2, out2) not in seen:
+                    seen.add((un2, out2))
+                    work.append((un2, out2))
+    res = {}
+    for un, out in seen:
+        res.setdefault(un, set()).add(out)
+    return res
+
+
 def check_property(prop, tier='quick', seed=0, keep=False):
     t0 = time.time()
     units = load_units()
-    mine = units_for(prop, units)
+    closure = dependency_closure(prop, units)
+    mine = [u for u in units if prop in u['props'] or u['name'] in closure]
     if not mine:
         print('no units serve %s' % prop)
         return 2
+    global _CLOSURE
+    _CLOSURE = closure
     scratch = os.path.join(SCRATCH_ROOT, '%s-%d' % (prop, os.getpid()))
     os.makedirs(scratch, exist_ok=True)
     findings = [f for f in load_findings() if f.get('property') == prop]
@@ -215,8 +266,13 @@ def check_property(prop, tier='quick', seed=0, keep=False):
             shutil.rmtree(scratch, ignore_errors=True)
 
 
-def _relevant(meta, prop):
-    return prop in meta.get('props', [])
+_CLOSURE = {}
+
+
+def _relevant(meta, prop, unit=None, name=None):
+    if prop in meta.get('props', []):
+        return True
+    return unit is not None and name in _CLOSURE.get(unit, ())
 
 
 def _check_property(prop, tier, seed, mine, scratch, findings, t0):
@@ -264,7 +320,7 @@ def _check_property(prop, tier, seed, mine, scratch, findings, t0):
         for e in r.errors:
             errs_by_fn.setdefault(e['fn'], []).append(e)
         # relevant function set: extracted fns + ghost fns tagged with this property
-        rel = {name: meta for name, meta in b.fns.items() if _relevant(meta, prop)}
+        rel = {name: meta for name, meta in b.fns.items() if _relevant(meta, prop, r.unit['name'], name) and not meta.get('assumed')}
         # baseline: every function recorded as verified on the pinned tree must still be present
         for name in baseline.get(uname, {}).get(prop, []):
             if name not in rel:
@@ -342,7 +398,7 @@ def _check_property(prop, tier, seed, mine, scratch, findings, t0):
                 futs = [ex.submit(run_unit, u, v, scratch, None, sd, '_s%d' % sd) for (u, v) in jobs]
                 for f in futs:
                     rr = f.result()
-                    bad = [e for e in rr.errors if e['fn'] in rr.built.fns and _relevant(rr.built.fns[e['fn']], prop) and not rr.built.fns[e['fn']].get('expect_fail')] if rr.built else []
+                    bad = [e for e in rr.errors if e['fn'] in rr.built.fns and _relevant(rr.built.fns[e['fn']], prop, rr.unit['name'], e['fn']) and not rr.built.fns[e['fn']].get('expect_fail')] if rr.built else []
                     stab.append({'unit': rr.unit['name'], 'variant': rr.variant, 'seed': sd, 'status': rr.status, 'failed': [e['fn'] for e in bad]})
                     if bad:
                         unstable.append('%s/%s seed %d: %s' % (rr.unit['name'], rr.variant, sd, bad[0]['fn']))
